@@ -14,18 +14,14 @@
 -/
 import CimbaModel.Experiment.Theorems
 import CimbaModel.Experiment.Isolation
-import CimbaModel.Generated.Dispenser
+import CimbaModel.Experiment.Current
 import CimbaModel.Generated.TlsInventory
 
 namespace CimbaModel.Props.C19
 open CimbaModel CimbaModel.Experiment
 
 /-- the dispenser and join as found in the C source on this run -/
-def code : Code :=
-  { fetchMode := Generated.fetchMode, fetchIncr := Generated.fetchIncr, initNext := Generated.initNext,
-    stopWhen := Generated.stopWhen, elemAddr := Generated.elemAddr,
-    spawnStart := Generated.spawnStart, spawnCond := Generated.spawnCond,
-    joinStart := Generated.joinStart, joinCond := Generated.joinCond }
+abbrev code : Code := currentCode
 
 /-- The C code is the documented dispenser: one atomic fetch-and-add of 1 starting from 0, a worker stops exactly when its
     index is ≥ the number of trials, the element passed is `base + idx·size`, all W threads are created and all W are joined. -/
@@ -33,16 +29,16 @@ theorem code_is_documented_dispenser : code.Correct where
   mode := by first | rfl | decide
   incr := by first | rfl | decide
   init := by first | rfl | decide
-  stop := by intro i n; simp [code, Generated.stopWhen] <;> omega
+  stop := by intro i n; simp [code, currentCode, Generated.stopWhen] <;> omega
   addr := by
     intro b i s
     first
       | rfl
-      | (simp [code, Generated.elemAddr, Nat.mul_comm, Nat.add_comm, Nat.add_left_comm])
+      | (simp [code, currentCode, Generated.elemAddr, Nat.mul_comm, Nat.add_comm, Nat.add_left_comm])
   spawn0 := by first | rfl | decide
-  spawn := by intro k W; simp [code, Generated.spawnCond] <;> omega
+  spawn := by intro k W; simp [code, currentCode, Generated.spawnCond] <;> omega
   join0 := by first | rfl | decide
-  join := by intro k W; simp [code, Generated.joinCond] <;> omega
+  join := by intro k W; simp [code, currentCode, Generated.joinCond] <;> omega
 
 /-- **Exactly once, at every moment.**  After any schedule (any interleaving of the main thread and W workers, any trial
     durations), the trials fetched-and-in-range, executing, or finished are exactly the indices below `min next n`, each once. -/
